@@ -150,7 +150,7 @@ fn subjects(cfg: &FamCfg, quick: bool) -> Vec<Subject> {
 pub fn run(mut run: Run) -> i32 {
     let quick = run.ctx.quick();
     run.rule = "closest_point: every shape of the lattice families (all types, polygons with holes, mixed collections) x every query point of the half-step lattice extended beyond the box: Intersection(p) iff p is not exterior (exact), \
-        otherwise a point on the geometry at the exact minimum distance; interior_point: every shape, the TJ(n) family (lattice triangle shell x triangular hole with a vertex in the interior of a shell edge, n=7 quick / 8 thorough), concave and sliver polygons: \
+        otherwise a point on the geometry at the exact minimum distance; interior_point: every shape, the TJ(n) family (lattice triangle shell x triangular hole with a vertex in the interior of a shell edge, n=7 quick / 9 thorough), concave and sliver polygons: \
         Some unless empty, not exterior, interior when the geometry has interior of its own dimension, no panic; distinct = (type, location class / family)"
         .into();
     run.assumptions = vec!["returned points are judged with a 1e-9 tolerance (they are not lattice points); query points and inputs are exact".into()];
@@ -277,7 +277,7 @@ pub fn run(mut run: Run) -> i32 {
     let ne = extra.len();
     run.stage("interior-point-concave-holes", ne, |idx, acc| check_interior(acc, idx, &extra[idx]));
     // TJ(n): triangle shell x triangular hole with one vertex in the interior of a shell edge
-    let tn: i64 = run.ctx.pick(7, 8);
+    let tn: i64 = run.ctx.pick(7, 9);
     let g = grid(tn);
     let tris: Vec<Vec<IP>> = rings_over(&g, 3);
     let nt = tris.len();
